@@ -31,15 +31,15 @@ impl Property for C02 {
         let x = p.xs();
         let n = x.len();
         let mut rewrites = 0;
-        let e = sanitise(&p.expr, &x, &mut rewrites);
+        let e = sanitise_for(&p.expr, &x, &mut rewrites, 1.0);
         let plain = eval_f64(&e, &x);
         let jet = eval_jet(&e, &x);
-        let finite = |m: &Vec<Vec<f64>>| m.iter().all(|r| r.iter().all(|a| a.is_finite() && a.abs() < 1e30));
-        if !plain.is_finite() || !finite(&jet.h) || !finite(&jet.hmag) || jet.gmag.iter().any(|g| !g.is_finite()) {
+        if !plain.is_finite() || !jet.bounds_finite(true) {
             v.label("skipped:non-finite");
             return v;
         }
         v.label_if(rewrites > 0, "sanitised");
+        v.label_if(crate::props::c01::has_zero_base_pow(&e, &x), "pow:zero-base");
         let p_sane = Program { expr: e.clone(), ..p.clone() };
         let mut hits = Hits::default();
         let res = catch(|| {
@@ -66,13 +66,13 @@ impl Property for C02 {
         v.label_if(cross && ops >= 3, "cross-terms-after-3-ops");
 
         // value and gradient against the reference
-        if (d2.real() - plain).abs() > jet.vtol(1e-12) {
+        if !((d2.real() - plain).abs() <= jet.vtol(1e-12)) {
             v.fail("value differs from plain float evaluation", format!("dual2 real = {:e}, f64 evaluation = {:e}", d2.real(), plain));
             return v;
         }
         let g2 = grad_by_name(&d2, n);
         for i in 0..n {
-            if (g2[i] - jet.g[i]).abs() > jet.gtol(i, 1e-10) {
+            if !((g2[i] - jet.g[i]).abs() <= jet.gtol(i, 1e-10)) {
                 v.fail("gradient differs from the true partial derivative", format!("d/d{}: dual2 {:e}, reference {:e}; all {} vs {}", NAMES[i], g2[i], jet.g[i], fmt_vec(&g2), fmt_vec(&jet.g)));
                 return v;
             }
@@ -85,7 +85,7 @@ impl Property for C02 {
         }) {
             Ok(Val::D(d1)) => {
                 let g1 = grad_by_name(&d1, n);
-                if (d1.real() - d2.real()).abs() > jet.vtol(1e-12) || (0..n).any(|i| (g1[i] - g2[i]).abs() > jet.gtol(i, 1e-10)) {
+                if !((d1.real() - d2.real()).abs() <= jet.vtol(1e-12)) || (0..n).any(|i| !((g1[i] - g2[i]).abs() <= jet.gtol(i, 1e-10))) {
                     v.fail("second-order value/gradient differ from first-order evaluation", format!("Dual: {:e} {}; Dual2: {:e} {}", d1.real(), fmt_vec(&g1), d2.real(), fmt_vec(&g2)));
                     return v;
                 }
@@ -134,20 +134,20 @@ impl Property for C02 {
         for (a, ra) in req.iter().enumerate() {
             for (b, rb) in req.iter().enumerate() {
                 let (exp, tol, symtol) = if *ra < n && *rb < n { (jet.h[*ra][*rb], jet.htol(*ra, *rb, 1e-9), jet.htol(*ra, *rb, 1e-13)) } else { (0.0, 0.0, 0.0) };
-                if ulps(hm[[a, b]], hm[[b, a]]) > 4 && (hm[[a, b]] - hm[[b, a]]).abs() > symtol {
-                    v.fail("hessian is not symmetric", format!("H[{}][{}] = {:e}, H[{}][{}] = {:e}", NAMES[*ra], NAMES[*rb], hm[[a, b]], NAMES[*rb], NAMES[*ra], hm[[b, a]]));
-                    return v;
-                }
-                if (hm[[a, b]] - exp).abs() > tol {
+                if !((hm[[a, b]] - exp).abs() <= tol) {
                     v.fail(
                         "hessian differs from the true second partial derivative",
                         format!("d2/d{}d{}: dual2 {:e}, reference {:e} (tolerance {:e})", NAMES[*ra], NAMES[*rb], hm[[a, b]], exp, tol),
                     );
                     return v;
                 }
+                if ulps(hm[[a, b]], hm[[b, a]]) > 4 && !((hm[[a, b]] - hm[[b, a]]).abs() <= symtol) {
+                    v.fail("hessian is not symmetric", format!("H[{}][{}] = {:e}, H[{}][{}] = {:e}", NAMES[*ra], NAMES[*rb], hm[[a, b]], NAMES[*rb], NAMES[*ra], hm[[b, a]]));
+                    return v;
+                }
             }
         }
-        if (plain.to_bits() >> 7) % 50 == 0 {
+        if (plain.to_bits() >> 7) % 50 == 0 && x.iter().all(|xi| xi.abs() >= 0.1 && xi.abs() <= 10.0) {
             v.label("reference-self-checked");
             if let Some(m) = self_check(&e, &x, &jet, true) {
                 v.fail("oracle-self-check | reference disagrees with finite differences", m);
@@ -179,8 +179,9 @@ impl Property for C02 {
         for u in ["neg:ref:Dual2", "neg:own:Dual2", "abs:neg:Dual2", "abs:pos:Dual2", "exp:Dual2", "log:Dual2", "norm_cdf:Dual2", "inv_norm_cdf:Dual2", "pow:ref:Dual2", "pow:own:Dual2"] {
             f.push(Floor { label: u, min });
         }
-        f.push(Floor { label: "cross-terms-after-3-ops", min: tier.pick(40_000, 800_000) });
+        f.push(Floor { label: "cross-terms-after-3-ops", min: tier.pick(20_000, 400_000) });
         f.push(Floor { label: "request:absent-name", min: tier.pick(10_000, 200_000) });
+        f.push(Floor { label: "pow:zero-base", min: tier.pick(500, 10_000) });
         f
     }
 
